@@ -11,7 +11,8 @@ from .codec import OriginModel
 from .effects import Effects
 from .lin import Lin, Sym
 from .rules_C16 import CACHE_KINDS, check_counter, classify
-from .shared_state import CacheInfo, SharedWrite, World, recognise_cache, recognise_slot_memo, value_dependencies, write_is_definite
+from .shared_state import (CacheInfo, SharedWrite, World, history_definite, recognise_cache, recognise_global_memo, recognise_slot_memo,
+                           value_dependencies, write_is_definite)
 
 
 # ---------------------------------------------------------------------------------
@@ -47,16 +48,29 @@ def reads_param_before_define(fn: ast.FunctionDef, param: str) -> bool:
 
 
 class ScratchDiscipline:
-    def __init__(self, w: World, obj: str):
+    """obj: a module-level variable (qualified name), or with attr: the attribute `self.<attr>` of the instances of class cls"""
+
+    def __init__(self, w: World, obj: str, cls: Optional[str] = None, attr: Optional[str] = None):
         self.w, self.obj = w, obj
+        self.cls, self.attr = cls, attr
         self.mq, self.name = obj.rsplit(".", 1)
         self.length = self._length()
         self.problems: List[Tuple[str, int, str]] = []     # (function, line, text)
         self.functions: List[str] = []
 
     def _length(self) -> Optional[int]:
-        bd = self.w.model.module_vars.get(self.obj)
-        v = bd.node if bd else None
+        v = None
+        if self.attr is not None:
+            for k in self.w.model.mro(self.cls) if self.cls else []:
+                init = self.w.model.classes[k].methods.get("__init__")
+                if init:
+                    for n in ast.walk(self.w.model.funcs[init].node):
+                        if isinstance(n, ast.Assign) and any(isinstance(t, ast.Attribute) and t.attr == self.attr and isinstance(t.value, ast.Name)
+                                                            and t.value.id == "self" for t in n.targets):
+                            v = n.value
+        else:
+            bd = self.w.model.module_vars.get(self.obj)
+            v = bd.node if bd else None
         if isinstance(v, ast.List):
             return len(v.elts)
         if isinstance(v, ast.Call) and core.src(v.func) in ("vec3.create", "create"):
@@ -72,6 +86,9 @@ class ScratchDiscipline:
         return False
 
     def _is_obj(self, n: ast.AST, fi) -> bool:
+        if self.attr is not None:
+            return isinstance(n, ast.Attribute) and n.attr == self.attr and isinstance(n.value, ast.Name) and n.value.id == "self" \
+                and fi.cls is not None and self.cls in self.w.model.mro(fi.cls)
         if isinstance(n, ast.Name) and n.id == self.name and fi.module == self.mq and n.id not in self.w.model.local_names(fi):
             return True
         if isinstance(n, (ast.Name, ast.Attribute)):
@@ -385,54 +402,67 @@ def run(ctx):
     by_obj: Dict[str, List[SharedWrite]] = {}
     for sw in bad:
         by_obj.setdefault(sw.name, []).append(sw)
+    cache_fields = {fld for (_, fld) in caches}
     for obj, sws in sorted(by_obj.items()):
         sw = sws[0]
         where = f"{w.rel_of(sw.origin_func)}:{sw.origin_line}"
         owners = sorted({s.owner for s in sws})
-        is_module_list = sw.field is None and sw.depth == 0 and obj in w.model.module_vars and ScratchDiscipline(w, obj).length is not None
-        definite = any(write_is_definite(w.model, x, threads=False) for x in sws)
-        # one-slot memo on a module-level singleton
-        slot = None
-        for x in sws:
-            for k in x.kinds:
-                if k.startswith("attr-store:"):
-                    pr = recognise_slot_memo(w.model, x.origin_func, k.split(":", 1)[1].split(" ")[0])
-                    if pr is not None:
-                        slot = (x, k.split(":", 1)[1].split(" ")[0], pr)
-        cache_fields = {fld for (_, fld) in caches}
+        kinds = {k.split(" (")[0] for x in sws for k in x.kinds}
+        # (1) entries of a cache container initialised after they were stored
         if sw.field in cache_fields and all(x.depth >= 2 for x in sws):
             ctx.unk("C17.1", f"entries of cache {obj} are modified after they were stored ({owners[0]})", where,
                     f"`{sw.origin_text}` in {sw.origin_func} writes into an object held by the cache; single-threaded this is the initialisation of a "
                     f"new entry only if it completes before the entry is used, which is not decided")
             continue
-        if slot is not None:
-            x, attr, pr = slot
-            if pr:
-                ctx.bad("C17.1", f"one-slot memo {obj}.{attr} in {x.origin_func} returns a remembered result for a different argument", where, "; ".join(pr) +
-                        ": the value returned depends on which call came before")
+        # (2) one-slot memos: attribute of a singleton, or module-level variables
+        memo = None
+        for x in sws:
+            for k in x.kinds:
+                if k.startswith("attr-store:"):
+                    pr = recognise_slot_memo(w.model, x.origin_func, k.split(":", 1)[1].split(" ")[0])
+                    if pr is not None:
+                        memo = (x, f"{obj}.{k.split(':', 1)[1].split(' ')[0]}", pr)
+                if k.startswith("global-rebind:"):
+                    pr = recognise_global_memo(w.model, x.origin_func)
+                    if pr is not None:
+                        memo = (x, obj, pr)
+        if memo is not None:
+            x, what, pr = memo
+            hard = [p for p in pr if not p.startswith("UNDECIDED")]
+            if hard:
+                ctx.bad("C17.1", f"one-slot memo {what} in {x.origin_func} can return a result remembered for a different argument", where,
+                        "; ".join(hard) + ": what a call returns depends on which call came before")
+            elif pr:
+                ctx.unk("C17.1", f"one-slot memo {what} in {x.origin_func}", where, "; ".join(p.replace("UNDECIDED: ", "") for p in pr))
             else:
-                ctx.ok("C17.1", f"one-slot memo {obj}.{attr} in {x.origin_func} is keyed by exact equality of the arguments its value depends on", where,
+                ctx.ok("C17.1", f"one-slot memo {what} in {x.origin_func} is keyed by exact equality on everything its value is computed from", where,
                        "a hit returns what a miss would compute")
             continue
-        if not definite:
-            ctx.unk("C17.1", f"shared container {obj} is filled by {owners[0]}", where,
-                    f"`{sw.origin_text}` in {sw.origin_func} ({', '.join(sorted(sw.kinds))}) is a keyed store that is not one of the verified cache "
-                    f"fills; whether the stored value is a function of the key alone is not decided")
-        elif is_module_list:
+        # (3) scratch buffers: module-level or instance-attribute lists of fixed length used as `out` arguments
+        sd = None
+        if sw.field is None and sw.depth == 0 and obj in w.model.module_vars:
             sd = ScratchDiscipline(w, obj)
-            if sd.check():
+        elif sw.field is not None and sw.depth == 1 and w.eff.object_class(sw.obj):
+            sd = ScratchDiscipline(w, obj, w.eff.object_class(sw.obj), sw.field)
+        if sd is not None and sd.length is not None and kinds <= {"subscript-store:const"}:
+            if sd.check() and sd.functions:
                 ctx.ok("C17.1", f"scratch buffer {obj} is completely written before it is read in every activation", where,
                        f"functions naming it: {[f.split('.', 2)[-1] for f in sd.functions]}; no value survives from one call into the next")
             else:
-                f, line, text = sd.problems[0]
-                writers = set(owners)
+                f, line, text = sd.problems[0] if sd.problems else ("?", 0, "buffer not found by name")
                 ctx.unk("C17.1", f"shared buffer {obj}: `{text}` in {f} may read what an earlier call left behind", f"{w.rel_of(f) if f in w.model.funcs else ''}:{line}",
                         f"written by {[o.split('.', 2)[-1] for o in owners]}; the written-before-read discipline is not established, so history "
                         f"independence of the callers is not decided")
-        else:
+            continue
+        # (4) certain history dependence: read-modify-write / overwriting components of persistent data
+        if any(history_definite(w.model, x) for x in sws):
             ctx.bad("C17.1", f"persistent shared object {obj} is modified by {owners[0]}", where,
-                    f"`{sw.origin_text}` in {sw.origin_func} ({', '.join(sorted(sw.kinds))}) changes module-level data that later calls read "
+                    f"`{sw.origin_text}` in {sw.origin_func} ({', '.join(sorted(kinds))}) changes module-level data that later calls read "
                     f"(reachable via {w.path_to(sw.owner)}): results depend on which calls were made before")
+        else:
+            ctx.unk("C17.1", f"shared object {obj} is written by {owners[0]}", where,
+                    f"`{sw.origin_text}` in {sw.origin_func} ({', '.join(sorted(kinds))}) stores a computed value in module-level state (memo, lazy "
+                    f"initialisation or eviction idiom that is not one of the verified ones); whether later results depend on it is not decided")
     for (func, fld), (ci, sws) in sorted(caches.items()):
         where = f"{w.rel_of(func)}:{w.model.funcs[func].node.lineno}"
         name = f"{sws[0].obj}.{fld}"
